@@ -11,6 +11,7 @@
 import LispModel.Eval
 import LispModel.Proofs.EvalCancel
 import LispModel.Proofs.EvalTry
+import LispModel.Proofs.EvalCancelBound
 namespace LispModel.Props.C07
 open LispModel LispModel.Proofs.EvalCancel LispModel.Proofs.EvalTry
 
@@ -159,6 +160,145 @@ example :
     let f := ls [sy "f"]
     ((run f).2.ticks == 51 && (run (wrap f)).2.ticks == 53 && (run (wrap (wrap f))).2.ticks == 55 &&
       (run (wrap (wrap (wrap f)))).2.ticks == 57 && ((run (wrap (wrap (wrap f)))).1 matches .err _)) = true := by
+  decide +kernel
+
+/-! ## a run that is cancelled in the middle: the closed form (Proofs/EvalCancelBound.lean)
+
+  `(obs F).f k st …` is computed alongside `f F st …` (it follows the control flow of the block and re-runs its
+  functions for the intermediate states) and returns the CUT of the run: `none` when no poll of the run
+  reported "done", else `some (sc, stk)` where `sc` is the state in which the first cancelled poll was
+  performed and `stk` the frames live on the evaluation stack at that moment, innermost first
+  (`Fr.tr fin`: a `try` form, `fin` = it has a `finally` clause; `Fr.mac`: a macro expansion).
+  `liveFrames cut` (`T` below) is the length of that stack (0 for `none`).
+  `Bound n st b cut := b.ticks ≤ max st.ticks n + 1 + 2 * liveFrames cut`. -/
+
+open LispModel.Proofs.EvalCancelBound
+
+/-- Once the context is cancelled, EVAL returns within a bound that does not depend on how long the program
+    would otherwise run: a run of ANY function of the block that starts in `st` with the context cancelled
+    from poll `n` on (reached already or not) ends with `ticks ≤ max st.ticks n + 1 + 2·T` — the first
+    cancelled poll happens at poll `max st.ticks n`, and each `try` form or macro expansion that is live on
+    the evaluation stack at that moment adds at most two polls (handler + finally body; resp. the dispatch of
+    the expansion, which is not preceded by a poll).  No fuel condition (an out-of-fuel run obeys it too). -/
+theorem polls_after_cancel_closed_form (n F : Nat) (st : State) (hc : st.cancelAt = some n)
+    (hs : st.stepper = none) (env d : Nat) :
+    (∀ ast, Bound n st (eval F st env ast d).2 ((obs F).eval [] st env ast d)) ∧
+    (∀ ast, Bound n st (evalLoop F st env ast d).2 ((obs F).evalLoop [] st env ast d)) ∧
+    (∀ ast, Bound n st (evalAst F st env ast d).2 ((obs F).evalAst [] st env ast d)) ∧
+    (∀ xs, Bound n st (evalList F st env xs d).2 ((obs F).evalList [] st env xs d)) ∧
+    (∀ kvs, Bound n st (evalMap F st env kvs d).2 ((obs F).evalMap [] st env kvs d)) ∧
+    (∀ lst fr kl, Bound n st (doForms F st env lst fr kl d).2 ((obs F).doForms [] st env lst fr kl d)) ∧
+    (∀ bs a1, Bound n st (letBinds F st env bs a1 d).2 ((obs F).letBinds [] st env bs a1 d)) ∧
+    (∀ ast, Bound n st (macroexpand F st env ast d).2 ((obs F).macroexpand [] st env ast d)) ∧
+    (∀ f args, Bound n st (apply F st f args d).2 ((obs F).apply [] st f args d)) ∧
+    (∀ f xs, Bound n st (mapLoop F st f xs d).2 ((obs F).mapLoop [] st f xs d)) ∧
+    (∀ v path f, Bound n st (updateIn F st v path f d).2 ((obs F).updateIn [] st v path f d)) ∧
+    (∀ v i f, Bound n st (update1 F st v i f d).2 ((obs F).update1 [] st v i f d)) ∧
+    (∀ name args, Bound n st (callBuiltin F st name args d).2 ((obs F).callBuiltin [] st name args d)) :=
+  closed_form_all n F st hc hs env d
+
+/-- the same for `EVAL`, written out -/
+theorem eval_returns_within_closed_form (n F : Nat) (st : State) (hc : st.cancelAt = some n)
+    (hs : st.stepper = none) (env : Nat) (ast : Val) (d : Nat) :
+    (eval F st env ast d).2.ticks ≤ max st.ticks n + 1 + 2 * liveFrames ((obs F).eval [] st env ast d) :=
+  (closed_form_all n F st hc hs env d).1 ast
+
+/-- a run whose cut is `none` never saw a cancelled poll: it ended at or before poll `n` -/
+theorem run_without_cut_ends_before_deadline (n F : Nat) (st : State) (hc : st.cancelAt = some n)
+    (hs : st.stepper = none) (env : Nat) (ast : Val) (d : Nat) (h : (obs F).eval [] st env ast d = none) :
+    (eval F st env ast d).2.ticks ≤ max st.ticks n :=
+  eval_no_cut n F st hc hs env ast d h
+
+/-- The full statement "the trace of the final state is the trace at the moment of the first cancelled poll
+    (effects only before the cancel point)". -/
+def no_effects_after_cancel_point_statement : Prop :=
+  ∀ (n F : Nat) (st : State), st.cancelAt = some n → st.stepper = none →
+    ∀ (env : Nat) (ast : Val) (d : Nat) (sc : State) (stk : List Fr),
+      (obs F).eval [] st env ast d = some (sc, stk) → (eval F st env ast d).2.trace = sc.trace
+
+/-- It is FALSE for jig/lisp (model and Go code: `defer func() { _, _ = do(ctx, finallyDo, 0, 0, env) }()`
+    discards the error of the finally forms, the timeout included): in
+    `(do (def f (fn () (f))) (trace! (try 1 (finally (f)))))` the finally body spins until the deadline, its
+    timeout is discarded, the try form returns 1 and `trace!` is applied to it — one effect after the cut. -/
+theorem no_effects_after_cancel_point_fails : ¬ no_effects_after_cancel_point_statement :=
+  fun h => swallow_refutes h
+
+/-- What holds (`EffectsStopAtCut`): the first cancelled poll happens in a state `sc` with
+    `sc.ticks = max st.ticks n`; and when none of the frames live at that moment is a `try` form with a
+    `finally` clause, the run returns no value and the `trace!` effects, `depth!` marks and atom store of its
+    final state are exactly those of `sc` — effects happened only while `ticks ≤ n`.  For every function of
+    the block.  Missing for the full statement: nothing provable — see `no_effects_after_cancel_point_fails`. -/
+theorem no_effects_after_cancel_point_partial (n F : Nat) (st : State) (hc : st.cancelAt = some n)
+    (hs : st.stepper = none) (env d : Nat) :
+    (∀ ast, EffectsStopAtCut n st (okB (eval F st env ast d).1) (eval F st env ast d).2
+      ((obs F).eval [] st env ast d)) ∧
+    (∀ ast, EffectsStopAtCut n st (okB (evalLoop F st env ast d).1) (evalLoop F st env ast d).2
+      ((obs F).evalLoop [] st env ast d)) ∧
+    (∀ ast, EffectsStopAtCut n st (okB (evalAst F st env ast d).1) (evalAst F st env ast d).2
+      ((obs F).evalAst [] st env ast d)) ∧
+    (∀ xs, EffectsStopAtCut n st (okB (evalList F st env xs d).1) (evalList F st env xs d).2
+      ((obs F).evalList [] st env xs d)) ∧
+    (∀ kvs, EffectsStopAtCut n st (okB (evalMap F st env kvs d).1) (evalMap F st env kvs d).2
+      ((obs F).evalMap [] st env kvs d)) ∧
+    (∀ lst fr kl, EffectsStopAtCut n st (okB (doForms F st env lst fr kl d).1) (doForms F st env lst fr kl d).2
+      ((obs F).doForms [] st env lst fr kl d)) ∧
+    (∀ bs a1, EffectsStopAtCut n st (okB (letBinds F st env bs a1 d).1) (letBinds F st env bs a1 d).2
+      ((obs F).letBinds [] st env bs a1 d)) ∧
+    (∀ ast, EffectsStopAtCut n st (okB (macroexpand F st env ast d).1) (macroexpand F st env ast d).2
+      ((obs F).macroexpand [] st env ast d)) ∧
+    (∀ f args, EffectsStopAtCut n st (okB (apply F st f args d).1) (apply F st f args d).2
+      ((obs F).apply [] st f args d)) ∧
+    (∀ f xs, EffectsStopAtCut n st (okB (mapLoop F st f xs d).1) (mapLoop F st f xs d).2
+      ((obs F).mapLoop [] st f xs d)) ∧
+    (∀ v path f, EffectsStopAtCut n st (okB (updateIn F st v path f d).1) (updateIn F st v path f d).2
+      ((obs F).updateIn [] st v path f d)) ∧
+    (∀ v i f, EffectsStopAtCut n st (okB (update1 F st v i f d).1) (update1 F st v i f d).2
+      ((obs F).update1 [] st v i f d)) ∧
+    (∀ name args, EffectsStopAtCut n st (okB (callBuiltin F st name args d).1) (callBuiltin F st name args d).2
+      ((obs F).callBuiltin [] st name args d)) :=
+  effects_all n F st hc hs env d
+
+/-- the counterexample, concretely: cut at poll 12 with the try form (with finally) live and an empty trace;
+    the run ends one poll later WITH A VALUE and one `trace!` effect -/
+theorem effect_after_cut_witness :
+    ∃ sc stk, (obs 60).eval [] swallowState 0 swallowProg 0 = some (sc, stk) ∧ sc.ticks = 12 ∧
+      stk = [.tr true] ∧ sc.trace = [] ∧ (eval 60 swallowState 0 swallowProg 0).2.trace.length = 1 ∧
+      (eval 60 swallowState 0 swallowProg 0).2.ticks = 13 ∧ okB (eval 60 swallowState 0 swallowProg 0).1 = true :=
+  swallow_effect
+
+/-! ### non-vacuity of the closed form -/
+
+/-- `f` spinning inside `k` nested `(try … (catch e 1) (finally 2))` forms, cancelled from poll 20 on: the cut
+    is at poll 20 with `k` try frames live, and the run ends at poll `21 + 2·k` — the bound is attained -/
+example :
+    let sy (s : String) : Val := .sym s none
+    let ls (xs : List Val) : Val := .list xs none
+    let spin := ls [sy "def", sy "f", ls [sy "fn", ls [], ls [sy "f"]]]
+    let wrap (b : Val) : Val := ls [sy "try", b, ls [sy "catch", sy "e", .int 1], ls [sy "finally", .int 2]]
+    let st0 : State := { initState with cancelAt := some 20 }
+    let run (body : Val) : Nat × Option (Nat × Nat × List Fr) :=
+      ((eval 100 st0 0 (ls [sy "do", spin, body]) 0).2.ticks,
+       cutInfo ((obs 100).eval [] st0 0 (ls [sy "do", spin, body]) 0))
+    let f := ls [sy "f"]
+    (run f == (21, some (20, 0, [])) && run (wrap f) == (23, some (20, 0, [.tr true])) &&
+      run (wrap (wrap f)) == (25, some (20, 0, [.tr true, .tr true]))) = true := by
+  decide +kernel
+
+/-- Counting only `try` forms is not enough: the macro `m` expands (discarding the timeout in its own
+    `finally`) to `(try 1 2 (catch e 3) (finally 4))`, which is then entered after the deadline without a
+    poll and polls three times: cut at 20 with ONE try form live, end at poll 24 = 20 + 1 + 3 > 20 + 1 + 2·1;
+    with the macro expansion counted (`T = 2`) the bound is 25. -/
+example :
+    let sy (s : String) : Val := .sym s none
+    let ls (xs : List Val) : Val := .list xs none
+    let spin := ls [sy "def", sy "f", ls [sy "fn", ls [], ls [sy "f"]]]
+    let form := ls [sy "try", .int 1, .int 2, ls [sy "catch", sy "e", .int 3], ls [sy "finally", .int 4]]
+    let defm := ls [sy "defmacro", sy "m",
+      ls [sy "fn", ls [], ls [sy "try", ls [sy "quote", form], ls [sy "finally", ls [sy "f"]]]]]
+    let prog := ls [sy "do", spin, defm, ls [sy "m"]]
+    let st0 : State := { initState with cancelAt := some 20 }
+    ((eval 100 st0 0 prog 0).2.ticks == 24 &&
+      cutInfo ((obs 100).eval [] st0 0 prog 0) == some (20, 0, [.tr true, .mac])) = true := by
   decide +kernel
 
 end LispModel.Props.C07
